@@ -5,7 +5,7 @@ _ast = _ilu.module_from_spec(_spec)
 _spec.loader.exec_module(_ast)
 
 NAME = 'I-range'
-PROPERTIES = ['C02']
+PROPERTIES = ['C02', 'C06']
 ENGINE = 'verus'
 CLASS = 'U'
 DOC = ('extract_range_predicate (recursive over the real Expression AST, every AND nesting depth) is SOUND: every non-NULL column value that makes the '
@@ -97,6 +97,16 @@ pub open spec fn extract_post(e: Expression, c: &str, r: Option<RangePredicate>)
 }
 
 //@@ extract_range_predicate
+
+/// keys handed to the index are never NULL (a NULL key would match rows whose column IS NULL, for which no comparison / IN is TRUE)
+pub open spec fn pred_keys_nonnull(p: IndexPredicate) -> bool {
+    match p {
+        IndexPredicate::Range(rp) => bound_ok(rp.start) && bound_ok(rp.end),
+        IndexPredicate::In(vs) => forall|i: int| 0 <= i < vs@.len() ==> !(#[trigger] vs@[i] is Null),
+    }
+}
+
+//@@ extract_index_predicate
 
 // ---------------- when may the executor skip re-checking the WHERE clause? ---------------------------------------
 /// what where_clause_fully_satisfied_by_index has checked when it answers `true` (shape of e and of the predicate)
@@ -207,7 +217,21 @@ ITEMS['where_clause_fully_satisfied_by_index'] = dict(
     ensures res ==> (index_predicate is Some && skip_shape(*where_expr, indexed_column, index_predicate.unwrap())),
 ''')
 
+ITEMS['extract_index_predicate'] = dict(
+    file=_P, path='fn extract_index_predicate', ret='res', rewrites=[_AS_REF,
+        ('lit', 'for item in value_list {', 'for item in it: value_list {', 1)],
+    loops={0: '''
+                    invariant
+                        true,
+                        {{if_has:has_null}}!has_null ==> forall|i: int| 0 <= i < values@.len() ==> !(#[trigger] values@[i] is Null),{{end}}
+'''},
+    contract='''
+    ensures res matches Some(p) ==> pred_keys_nonnull(p),
+    decreases expr,
+''')
+
 OBLIGATIONS = {
+    'extract_index_predicate': ['post:index_keys_never_null', 'safety:no_panic', 'proof:loop_invariant_and_termination'],
     'where_clause_fully_satisfied_by_index': ['post:true_only_for_the_checked_shapes', 'safety:no_panic'],
     'lemma_skip_is_exact': ['post:skipping_the_where_recheck_is_exact'],
     'is_column_reference': ['post:is_named_column'],
